@@ -36,7 +36,7 @@ void __asan_on_error(void) {
 	void *bt[40]; int nb = backtrace(bt, 40);
 	for (int i = 0; i < nb && e->npcs < SAN_MAXPC; i++) { uintptr_t pc = (uintptr_t) bt[i]; if (pc >= (uintptr_t) &__executable_start && pc < (uintptr_t) &etext) e->pcs[e->npcs++] = pc; }
 	/* a deadly signal ends the process right after this hook: report it now */
-	static const char *fatal[] = {"SEGV", "FPE", "ILL", "BUS", "ABRT", "stack-overflow", "null-deref", "wild-jump", "wild-addr", "high-value", "unknown-crash", "signal", NULL};
+	static const char *fatal[] = {"SEGV", "FPE", "ILL", "BUS", "ABRT", "stack-overflow", "null-deref", "wild-jump", "wild-addr", "high-value", "unknown-crash", "signal", "bad-free", "double-free", "mismatch", "bad-malloc", "bad-__sanitizer", "invalid-pointer", NULL};   /* the last ones are reports ASan cannot recover from */
 	if (san_fatal_cb) for (int i = 0; fatal[i]; i++) if (strstr(e->kind, fatal[i])) { san_fatal_cb(e); break; }
 }
 const char *__asan_default_options(void) {
